@@ -281,6 +281,7 @@ Inductive obj :=
 | OFunc (ostr : str) (sg : N)                (* Func.String(), its signature type *)
 | OVar (ostr : str) (ty : N)
 | OConst (ostr : str) (ty : N) (value : str).
+Definition obj_node (o : obj) : N := match o with OType t => t | OFunc _ sg => sg | OVar _ ty => ty | OConst _ ty _ => ty end.
 Record gpkg := { g_path : str; g_name : str; g_requested : bool; g_imports : list str; g_scope : list obj }.
 
 Record pkgrec := { pr_path : str; pr_name : str; pr_funcs : list (str * entry); pr_vars : list (str * entry); pr_consts : list (str * entry); pr_imports : list str }.
@@ -366,6 +367,48 @@ Definition named_okb (v2 : bool) (p : prog) : bool :=
         match plookup under' p with Some (_, sh) => composite sh | None => false end
     | _ => true
     end) p.
+
+(* ---------- the keys a node table can give rise to; node tables that refer only to nodes they contain ---------- *)
+Definition mkey (v2 : bool) (m : str * str * N) : name := name_of_string v2 (snd (fst m)).
+Definition gen_name (tps : list (str * N)) (n0 : name) : name :=
+  match tps with [] => n0 | _ => (fst n0, hd [] (split_on LBR (snd n0)) ++ [LBR] ++ join [44%N] (map fst tps) ++ [93%N]) end.
+Definition node_keys (v2 : bool) (nd : N * (str * shape)) : list name :=
+  let n0 := name_of_string v2 (fst (snd nd)) in
+  match snd (snd nd) with
+  | SBasic n => [([], n)]
+  | SNamed _ _ ms tps _ => n0 :: gen_name tps n0 :: map (mkey v2) ms
+  | SIface ms => n0 :: map (mkey v2) ms
+  | _ => [n0]
+  end.
+Definition allkeys (v2 : bool) (p : prog) : list name := flat_map (node_keys v2) p.
+
+Definition has (p : prog) (t : N) : bool := match plookup t p with Some _ => true | None => false end.
+(* a node whose walk needs no recursion: a type parameter, a basic or unsupported type, an
+   interface without methods (such as the constraint any), an empty struct *)
+Definition is_tparam (p : prog) (t : N) : bool :=
+  match plookup t p with
+  | Some (_, STypeParam) | Some (_, SBasic _) | Some (_, SOther) | Some (_, SIface []) | Some (_, SStruct []) => true
+  | _ => false end.
+Definition is_func (p : prog) (t : N) : bool := match plookup t p with Some (_, SFunc _ _ _ _) => true | _ => false end.
+Definition shape_ok (p : prog) (sh : shape) : bool :=
+  match sh with
+  | SPtr e | SSlice e | SChan e | SArray _ e => has p e
+  | SMap k e => has p k && has p e
+  | SStruct fs => forallb (fun f => has p (snd f)) fs
+  | SIface ms => forallb (fun m => is_func p (snd m)) ms
+  | SFunc ps rs _ recv => forallb (fun a => has p (snd a)) ps && forallb (fun a => has p (snd a)) rs && match recv with Some r => has p r | None => true end
+  | SNamed cls under ms tps origin =>
+      has p under && forallb (fun m => is_func p (snd m)) ms && forallb (fun a => is_tparam p (snd a)) tps &&
+      match origin with
+      | Some og => match plookup og p with
+                   | Some (_, SNamed _ u' m' _ _) => has p u' && forallb (fun m => is_func p (snd m)) m'
+                   | _ => true end
+      | None => true end
+  | _ => true
+  end.
+Definition prog_okb (p : prog) : bool := forallb (fun nd => shape_ok p (snd (snd nd))) p.
+(* the budget walkType is run with: proved sufficient in Proofs/TerminationProofs.v *)
+Definition budget (v2 : bool) (p : prog) : nat := 2 * length (allkeys v2 p) + 2.
 
 (* every package that holds a type key also exists as a package *)
 Definition all_packages (w : world) : list str :=
@@ -484,7 +527,7 @@ Definition run_universe (inp : sexp) : option sexp :=
   | L [A [v]; nodes; pkgs] =>
       match dlist (dpair dnum (dpair dstr d_shape)) nodes, dlist d_gpkg pkgs with
       | Some nodes, Some pkgs =>
-          let fuel := 2 * length nodes + 20 in
+          let fuel := budget (N.eqb v 2) nodes in
           Some (match build (N.eqb v 2) nodes fuel pkgs with
                 | Some w => e_world w
                 | None => etag "out-of-fuel" [] end)
@@ -495,9 +538,11 @@ Definition run_universe (inp : sexp) : option sexp :=
 Definition run_wellformed (inp : sexp) : option sexp :=
   match inp with
   | L [A [v]; nodes; pkgs] =>
-      match dlist (dpair dnum (dpair dstr d_shape)) nodes with
-      | Some nodes => Some (ebool (named_okb (N.eqb v 2) nodes))
-      | None => None end
+      match dlist (dpair dnum (dpair dstr d_shape)) nodes, dlist d_gpkg pkgs with
+      | Some nodes, Some pkgs =>
+          Some (ebool (named_okb (N.eqb v 2) nodes && prog_okb nodes &&
+                       forallb (fun g => forallb (fun o => has nodes (obj_node o)) (g_scope g)) pkgs))
+      | _, _ => None end
   | _ => None end.
 
 (* C20: the predicates on every Types entry of the built universe *)
@@ -507,7 +552,7 @@ Definition run_preds (inp : sexp) : option sexp :=
   | L [A [v]; nodes; pkgs] =>
       match dlist (dpair dnum (dpair dstr d_shape)) nodes, dlist d_gpkg pkgs with
       | Some nodes, Some pkgs =>
-          let fuel := 2 * length nodes + 20 in
+          let fuel := budget (N.eqb v 2) nodes in
           Some (match build (N.eqb v 2) nodes fuel pkgs with
                 | Some w =>
                     let u := w_u w in
@@ -524,7 +569,7 @@ Definition run_prelookups (inp : sexp) : option sexp :=
   | L [L [A [v]; nodes; pkgs]; pre] =>
       match dlist (dpair dnum (dpair dstr d_shape)) nodes, dlist d_gpkg pkgs, dlist (dpair dstr dstr) pre with
       | Some nodes, Some pkgs, Some pre =>
-          let fuel := 2 * length nodes + 20 in
+          let fuel := budget (N.eqb v 2) nodes in
           let u0 := fold_left (fun u k => fst (get_or_create (N.eqb v 2) u k)) pre {| objs := []; tkeys := [] |} in
           Some (match build_from (N.eqb v 2) nodes fuel u0 pkgs with
                 | Some w => e_world w
@@ -538,7 +583,7 @@ Definition run_lookups (inp : sexp) : option sexp :=
   | L [L [A [v]; nodes; pkgs]; lks] =>
       match dlist (dpair dnum (dpair dstr d_shape)) nodes, dlist d_gpkg pkgs, dlist (dpair dstr dstr) lks with
       | Some nodes, Some pkgs, Some lks =>
-          let fuel := 2 * length nodes + 20 in
+          let fuel := budget (N.eqb v 2) nodes in
           Some (match build (N.eqb v 2) nodes fuel pkgs with
                 | Some w =>
                     let '(_, out) := fold_left (fun acc k => let '(u, out) := acc in
